@@ -13,7 +13,7 @@ func GenericOracle(sc *Scenario, w *World, x *Exec) []Violation {
 		first := strings.SplitN(p, "\n", 2)[0]
 		vs = append(vs, Violation{Rule: "no-panic", Sig: "panic:" + panicSite(p), Detail: first + "\n" + p})
 	}
-	if x.Bubble != "" && !x.Hang && len(x.Leaked) == 0 && len(x.Panics) == 0 {
+	if x.Bubble != "" && !x.Abandoned && !x.Hang && len(x.Leaked) == 0 && len(x.Panics) == 0 {
 		// the bubble could not be drained although every controlled thread finished:
 		// an uncontrolled goroutine is left behind
 		vs = append(vs, Violation{Prop: "C14", Rule: "no-goroutine-left", Sig: "bubble-not-drained", Detail: x.Bubble})
